@@ -106,6 +106,31 @@ REG = {
                 quick=dict(cases=1, budget_s=300, min_nontrivial=50), thorough=dict(cases=1, budget_s=1500, min_nontrivial=200),
                 deciding_monitors=["law-evaluations", "collect-evaluations"], ext=["fresh"],
                 assumptions=["grid bounds as stated in 'rule'; outside them nothing is claimed"]),
+    "C11": dict(module="vlib.props.c11", level="fault_enumeration",
+                rule="input classes: valid random (6 dialects), dependency cycles + self-dependencies, bounds/pins/deadlines/gaps past the project "
+                     "end or before its start, resources that never work, boundary efforts (0, 1min, 150000h, 3y ...), unknown resources/tasks, empty "
+                     "bodies, zero/odd project durations and timing resolutions, 1-40 leaves on one resource, many leave lines, scenarios x group "
+                     "limits, repository fixtures, and token-level corruptions (delete/duplicate/swap/truncate/boundary literal) of all of these; "
+                     "distinct = (class, outcome, exception type+site | unscheduled?, warned?, #leaves, #scenarios)",
+                quick=dict(cases=3000, budget_s=200, min_nontrivial=60, case_timeout=60),
+                thorough=dict(cases=60000, budget_s=1200, min_nontrivial=150, case_timeout=90),
+                deciding_monitors=["monitor:pick", "steps", "outcome:returned", "outcome:rejected"],
+                params=dict(step_cap=120000000, step_base=2000000, step_ratio=60.0), timeouts_ok=False,
+                assumptions=["termination is restated as bounded progress in logical steps (sys.monitoring PY_START events): hard cap 1.2e8 per case while "
+                             "running, and for returned projects steps <= 2e6 + 3000 x input bytes + 60 x slots x (resources + leaves + 1) x scenarios "
+                             "(several times the largest ratio observed on the repaired tree, reported in the evidence); cursor moves per task <= "
+                             "#slots + 2, picks <= #leaves; the wall-clock alarm per case is a watchdog whose firing is inconclusive",
+                             "parse rejection = lark error or ValueError (unwrapped from lark's VisitError); any other exception incl. SystemExit "
+                             "is an internal error"]),
+    "C12": dict(module="vlib.props.c12", level="exploration",
+                rule="pool of texts (6 dialects, scenarios, own reports, fixtures, and failing texts: syntax error, unknown resource, truncated); "
+                     "reference = each text in a fresh interpreter under PYTHONHASHSEED 0, 1 and random; histories = one interpreter per history "
+                     "running 2..N random operations (parse+schedule, parse(schedule=False)+schedule(), schedule() again, report generation twice, "
+                     "re-parse of the same text) over the pool; after EVERY operation the fingerprint (dates of all scenarios, ledgers, report "
+                     "cells) must equal the fresh one; distinct = (previous op, op, failing text?, text size class)",
+                quick=dict(pool=40, histories=160, maxlen=14, min_nontrivial=40), thorough=dict(pool=120, histories=4000, maxlen=30, min_nontrivial=80),
+                deciding_monitors=["history-comparisons", "fresh-comparisons"],
+                assumptions=BASE_ASSUME + ["texts avoid ${now}/${today} (wall-clock by definition)"]),
 }
 
 
